@@ -740,6 +740,17 @@ func longformReplay(args []string) {
 				fail("processed-did-does-not-resolve", "VDR.Read: "+e.Error(), "resolves", got)
 			}
 		case "resolve":
+			// (trace mode: a probe that cannot even be set up - a document that the VDR does not create any more - is logged
+			// as a probe whose answer is wrong in every respect, for TLC to reject)
+			probeLogged := false
+
+			defer func() {
+				if traceEnc != nil && !probeLogged {
+					_ = traceEnc.Encode(map[string]interface{}{"event": "Resolve", "probe": c.Probe, "resolved": false, "read": false, "id_ok": false,
+						"bad": "the probe could not be set up (a document is not created, or a call panicked)"})
+				}
+			}()
+
 			res, err := createOnce(c.Doc, 1)
 			if err != nil {
 				fail("create-error", err.Error(), nil, nil)
@@ -858,6 +869,7 @@ func longformReplay(args []string) {
 			if traceEnc != nil {
 				_ = traceEnc.Encode(map[string]interface{}{"event": "Resolve", "probe": c.Probe, "resolved": e1 == nil, "read": e2 == nil,
 					"id_ok": e1 != nil || r1.Document.ID() == did})
+				probeLogged = true
 
 				return
 			}
